@@ -212,7 +212,15 @@ def check_region(ctx, case):
 def check_region_1(ctx, case, tag):
     from csep.core.regions import CartesianGrid2D
     L = lattice.Lattice(case["region"])
-    o = call(L.build, "from_origins", magnitudes=None)
+    if len(case["region"]["cells"]) % 2 and case["region"].get("dh_mode", "decimal") != "none":
+        # the original built by the class constructor from explicit cell polygons (not by the factory that from_dict itself uses: a
+        # region and its rebuilt twin that both went through the same factory agree with each other whatever the factory does)
+        from csep.core.regions import compute_vertices
+        from csep.models import Polygon
+        ctx.count("regions_built_by_the_constructor")
+        o = call(lambda: CartesianGrid2D([Polygon(b) for b in compute_vertices(L.origins(), L.given_dh)], L.given_dh))
+    else:
+        o = call(L.build, "from_origins", magnitudes=None)
     if not o.ok:
         ctx.unexpected(o, "build_region")
         return
